@@ -11,7 +11,8 @@
     boolean and evaluated on every generated case ([op_wfb], [batched_wfb]): column names are
     identifiers, a pointer has one pointee, rows have one value per column. *)
 From Coq Require Import List String Bool ZArith.
-From Thunder Require Import Sql.Model Sql.ModelExact Sql.Confine Sql.BatchProofs Sql.ShardRows Sql.Methods Sql.MethodsProofs Gen.DbMethods.
+From Coq Require Import Permutation.
+From Thunder Require Import Sql.GroupOrder Sql.Model Sql.ModelExact Sql.Confine Sql.BatchProofs Sql.ShardRows Sql.Methods Sql.MethodsProofs Gen.DbMethods.
 Import ListNotations.
 Open Scope string_scope.
 
@@ -81,6 +82,14 @@ Theorem c12_batched_noncomplying_rejected :
     nth i (snd (run_batched h t fs arrival)) Proceeds <> Proceeds /\ ~ In i (List.concat arrival).
 Proof. exact c12_batched_noncomplying_b. Qed.
 Print Assumptions c12_batched_noncomplying_rejected.
+
+(** Confinement of a combined statement does not depend on the order of its OR-ed groups (the evaluator of the
+    correspondence accepts them in any order). *)
+Theorem c12_confinement_does_not_depend_on_group_order :
+  forall t l tbl cols gs gs' o, Permutation gs gs' ->
+    confined t l (SSelect tbl cols (WBatch gs) o) -> confined t l (SSelect tbl cols (WBatch gs') o).
+Proof. exact confined_perm. Qed.
+Print Assumptions c12_confinement_does_not_depend_on_group_order.
 
 (** Batches that mix handles sharing one batch function (an unrestricted and a restricted handle, two shard
     limits, on one batching context): every value tuple of every combined statement is the tuple of a
